@@ -16,7 +16,7 @@
    for partial runs (witness in known_findings/C10.json, section fixed). *)
 From Coq Require Import NArith List Bool.
 From SG Require Import Check.Results Check.ExitCode Check.BMap Check.Ratchet Check.Baseline
-     Check.Proofs_Check Check.Proofs_C10.
+     Check.Proofs_Check Check.Proofs_C10 Check.Proofs_Keys.
 Import ListNotations.
 Open Scope N_scope.
 
@@ -89,6 +89,16 @@ Theorem C10_strict_fails_only_for_resolved :
 Proof. exact strict_fails_only_for_resolved. Qed.
 Print Assumptions C10_strict_fails_only_for_resolved.
 
+(* fix D55: a path that is not valid UTF-8 has no key; an entry of a baseline file (a Unicode
+   string: [ovalid]) is never reported stale or removed on the strength of a result at such a path
+   -- before the repair the lossy form of src/<fe>.rs was the key of src/<ff>.rs as well, and
+   `--files src/<fe>.rs --ratchet auto` removed the entry of the still violating other file *)
+Theorem C10_stale_needs_keyed_path :
+  forall fl R dirs disk k r,
+  ovalid disk -> In k (o_stale (check_step fl R dirs disk)) -> In r R -> key_of r = k -> has_key r = true.
+Proof. exact stale_needs_keyed_path. Qed.
+Print Assumptions C10_stale_needs_keyed_path.
+
 (* ---- non-vacuity and witnesses *)
 Definition ka : key := [97].
 Definition kb : key := [98].
@@ -122,3 +132,14 @@ Example C10_mode_precedence :
   o_disk (check_step fl [pa; fb] [] (Some bl2)) = Some bl2 /\ o_stale (check_step fl [pa; fb] [] (Some bl2)) = [ka].
 Proof. vm_compute. split; reflexivity. Qed.
 Print Assumptions C10_mode_precedence.
+
+(* the former D55 witness: the file holds the lossy key of src/<ff>.rs (written before the repair);
+   a run that evaluated only the passing src/<fe>.rs leaves it alone under auto, passes under strict *)
+Example C10_no_key_untouched :
+  let rfe := mkResult [115;114;99;47;56574;46;114;115] Content Passed 1 10 [] in
+  let bl := Some [([115;114;99;47;65533;46;114;115], EContent 30 [])] in
+  has_key rfe = false /\
+  o_disk (check_step auto_fl [rfe] [] bl) = bl /\ o_stale (check_step strict_fl [rfe] [] bl) = [] /\
+  o_exit (check_step strict_fl [rfe] [] bl) = 0.
+Proof. vm_compute. repeat split; reflexivity. Qed.
+Print Assumptions C10_no_key_untouched.
